@@ -41,18 +41,24 @@ func (s *zzStore) Clear(p []byte) error                        { return nil }
 func (s *zzStore) Close() error                                { return nil }
 
 type zzRow struct {
-	key byte
-	sum byte
-	off uint32
+	key  byte
+	key2 byte // second key column (only with keycols = 2)
+	sum  byte
+	off  uint32
 }
 
 func zzPad16(b byte) []byte { r := make([]byte, 16); r[0] = b; return r }
 
-func zzBuildTable(st *zzStore, tag byte, nb, rowsPer int) (*objects.Table, [][]string, []zzRow) {
+func zzPadKey(r zzRow) []byte { k := make([]byte, 16); k[0], k[1] = r.key, r.key2; return k }
+
+func zzBuildTable(st *zzStore, tag byte, nb, rowsPer, keycols int) (*objects.Table, [][]string, []zzRow) {
 	tbl := &objects.Table{Columns: []string{"k", "v"}, PK: []uint32{0}}
+	if keycols == 2 {
+		tbl = &objects.Table{Columns: []string{"k", "k2", "v"}, PK: []uint32{0, 1}}
+	}
 	var tblIdx [][]string
 	var rows []zzRow
-	var prev byte
+	var prev zzRow
 	for b := 0; b < nb; b++ {
 		buf := bytes.NewBuffer(nil)
 		buf.WriteByte(byte(rowsPer))
@@ -61,15 +67,29 @@ func zzBuildTable(st *zzStore, tag byte, nb, rowsPer int) (*objects.Table, [][]s
 		}
 		for i := 0; i < rowsPer; i++ {
 			r := zzRow{key: zzverif.Byte("key"), sum: zzverif.Byte("sum"), off: uint32(b*objects.BlockSize + i)}
-			if len(rows) > 0 {
-				zzverif.Assume(r.key > prev)
+			if keycols == 2 {
+				r.key2 = zzverif.Byte("key2")
+				// a composite key whose first component takes few values, so that ties on the
+				// leading column are frequent
+				zzverif.Assume(r.key < 3)
 			}
-			prev = r.key
+			if len(rows) > 0 {
+				if keycols == 2 {
+					zzverif.Assume(zzverif.Or(r.key > prev.key, zzverif.And(r.key == prev.key, r.key2 > prev.key2)))
+				} else {
+					zzverif.Assume(r.key > prev.key)
+				}
+			}
+			prev = r
 			rows = append(rows, r)
-			buf.Write(zzPad16(r.key))
+			buf.Write(zzPadKey(r))
 			buf.Write(zzPad16(r.sum))
 			if i == 0 {
-				tblIdx = append(tblIdx, []string{string([]byte{r.key})})
+				if keycols == 2 {
+					tblIdx = append(tblIdx, []string{string([]byte{r.key}), string([]byte{r.key2})})
+				} else {
+					tblIdx = append(tblIdx, []string{string([]byte{r.key})})
+				}
 			}
 		}
 		id := make([]byte, 16)
@@ -84,11 +104,12 @@ func zzBuildTable(st *zzStore, tag byte, nb, rowsPer int) (*objects.Table, [][]s
 
 func Harness_C04_diff() {
 	nb1, nb2, rowsPer := zzverif.Param("nb1", 1), zzverif.Param("nb2", 1), zzverif.Param("rows", 2)
+	keycols := zzverif.Param("keycols", 1)
 	zzverif.Region("empty-first-table", nb1 == 0)
 	zzverif.Region("empty-second-table", nb2 == 0)
 	st := &zzStore{m: map[string][]byte{}}
-	t1, idx1, rows1 := zzBuildTable(st, 1, nb1, rowsPer)
-	t2, idx2, rows2 := zzBuildTable(st, 2, nb2, rowsPer)
+	t1, idx1, rows1 := zzBuildTable(st, 1, nb1, rowsPer, keycols)
+	t2, idx2, rows2 := zzBuildTable(st, 2, nb2, rowsPer, keycols)
 	errCh := make(chan error, 10)
 	ch, _ := DiffTables(st, st, t1, t2, idx1, idx2, errCh, logr.Discard())
 	var evs []*objects.Diff
@@ -109,8 +130,9 @@ func Harness_C04_diff() {
 	for _, r1 := range rows1 {
 		found, mod := false, false
 		for _, r2 := range rows2 {
-			found = zzverif.Or(found, r1.key == r2.key)
-			mod = zzverif.Or(mod, zzverif.And(r1.key == r2.key, r1.sum != r2.sum))
+			same := zzverif.And(r1.key == r2.key, r1.key2 == r2.key2)
+			found = zzverif.Or(found, same)
+			mod = zzverif.Or(mod, zzverif.And(same, r1.sum != r2.sum))
 		}
 		ea += zzverif.B2I(!found)
 		em += zzverif.B2I(mod)
@@ -118,7 +140,7 @@ func Harness_C04_diff() {
 	for _, r2 := range rows2 {
 		found := false
 		for _, r1 := range rows1 {
-			found = zzverif.Or(found, r1.key == r2.key)
+			found = zzverif.Or(found, zzverif.And(r1.key == r2.key, r1.key2 == r2.key2))
 		}
 		er += zzverif.B2I(!found)
 	}
@@ -140,16 +162,16 @@ func Harness_C04_diff() {
 	for x, d := range evs {
 		zzverif.Assert("event-has-16-byte-key", len(d.PK) == 16)
 		for y := 0; y < x; y++ {
-			zzverif.Assert("no-key-reported-twice", d.PK[0] != evs[y].PK[0])
+			zzverif.Assert("no-key-reported-twice", zzverif.Or(d.PK[0] != evs[y].PK[0], d.PK[1] != evs[y].PK[1]))
 		}
 		var in1, in2 *zzRow
 		for i := range rows1 {
-			if rows1[i].key == d.PK[0] {
+			if rows1[i].key == d.PK[0] && rows1[i].key2 == d.PK[1] {
 				in1 = &rows1[i]
 			}
 		}
 		for i := range rows2 {
-			if rows2[i].key == d.PK[0] {
+			if rows2[i].key == d.PK[0] && rows2[i].key2 == d.PK[1] {
 				in2 = &rows2[i]
 			}
 		}
